@@ -1111,7 +1111,7 @@ func (db *DB) handleMemTableFlush(mt *memTable, dropPrefixes [][]byte) error {
 		_ = tbl.DecrRef()
 		return y.Wrap(err, "error while syncing the directory of a new table")
 	}
-	vevent(10, db.opt.Dir, 0, 0) // verif: syncdir
+	vevent(10, db.opt.Dir, 1, 0) // verif: syncdir (a=1: by the flusher)
 	// We own a ref on tbl.
 	err = db.lc.addLevel0Table(tbl) // This will incrRef
 	verifFlushDone(tbl)             // verif: observation point (no-op without the tag)
